@@ -80,12 +80,14 @@ Proof.
                                         | SFBitmap bs => Ok (Some bs)
                                         | SFPrim p => do bdm <- decode_dummy bd;
                                                       Ok (Some {| bm_len := ps_len p; bm_auto := negb (d_dae bdm); bm_enc := ps_enc p; bm_pref := ps_pref p |})
-                                        | SFComp _ _ _ _ _ => Err (Q "import.bitmap_with_subfields")
+                                        | SFTrack2 p => do bdm <- decode_dummy bd;
+                                                        Ok (Some {| bm_len := ps_len p; bm_auto := negb (d_dae bdm); bm_enc := ps_enc p; bm_pref := ps_pref p |})
+                                        | SFComp _ _ _ _ _ | SFOdd _ _ _ _ _ => Err (Q "import.bitmap_with_subfields")
                                         end)).
-      { intros bd. apply obind_no_panic; [apply IH|]. intros b. destruct b; try exact I.
-        apply obind_no_panic; [apply decode_dummy_np|]. intros; exact I. }
+      { intros bd. apply obind_no_panic; [apply IH|]. intros b. destruct b; try exact I;
+        (apply obind_no_panic; [apply decode_dummy_np|]; intros; exact I). }
       destruct (d_bitmap dm); try apply G. exact I. }
-    intros bm. destruct (_ && _); exact I.
+    intros bm. destruct (_ && _); [exact I|]. destruct (bytes_eqb _ _); exact I.
 Qed.
 
 Theorem import_spec_no_panic : forall d, no_panic (import_spec d).
